@@ -4,11 +4,13 @@ package ms
 
 import (
 	"fmt"
+	"github.com/alpacahq/marketstore/v4/utils/verifhook"
 	"math"
 	"os"
 	"reflect"
 	"sort"
 	"strings"
+	"sync"
 	"time"
 
 	"github.com/alpacahq/marketstore/v4/catalog"
@@ -85,11 +87,24 @@ func Open(root string, o Opts) *Inst {
 		// The loop goroutine announces itself through a package flag the writers read; a request issued
 		// before the goroutine has run would flush inline, concurrently with the loop. The server starts
 		// serving long after this point; give the goroutine time to be scheduled (not part of any verdict).
-		wait := 3 * o.WALRefresh
-		if wait < 10*time.Millisecond {
-			wait = 10 * time.Millisecond
+		// It is observed, not slept for: the installed hook handler is wrapped until the loop goroutine has
+		// passed one of its own hook points (wal.loop.*), which it only reaches after setting the flag.
+		loopSeen := make(chan struct{})
+		var once sync.Once
+		prev := verifhook.Get()
+		verifhook.Set(func(name string) {
+			if strings.HasPrefix(name, "wal.loop.") {
+				once.Do(func() { close(loopSeen) })
+			}
+			if prev != nil {
+				prev(name)
+			}
+		})
+		select {
+		case <-loopSeen: // the loop's WAL timer (WALRefresh) or checkpoint timer fired
+		case <-time.After(60 * time.Second):
 		}
-		time.Sleep(wait)
+		verifhook.Set(prev)
 	}
 	return in
 }
